@@ -27,9 +27,9 @@ THOROUGH = {'budget_s': 480}
 EXPECTED_PROBES = ['pass_runs', 'abort_delivered', 'm_stop_on_first_failure', 'm_run_if_false', 'm_skip_after_subtest_fail',
                    'm_branch_not_taken', 'm_timeout']
 
-PROF = gen.profile(p_timeout=60, p_settings=400, p_profile=100)
+PROF = gen.profile(p_timeout=60, p_settings=400, p_profile=100, p_monitor=150)
 # "an abort gives ABORTED": one operator abort from another thread at a tape-chosen step
-PROF_ABORT = gen.profile(p_timeout=60, p_settings=400, abort=1000, abort2=0, sigint=0, p_profile=100)
+PROF_ABORT = gen.profile(p_timeout=60, p_settings=400, abort=1000, abort2=0, sigint=0, p_profile=100, p_monitor=150)
 
 
 def setup():
